@@ -3,6 +3,7 @@ package main
 import (
 	"bytes"
 	"fmt"
+	gonet "net"
 	"sort"
 	"strconv"
 	"strings"
@@ -21,6 +22,8 @@ import (
 	tmsync "github.com/tendermint/tendermint/libs/sync"
 	mempoolmock "github.com/tendermint/tendermint/mempool/mock"
 	"github.com/tendermint/tendermint/p2p"
+	p2pmock "github.com/tendermint/tendermint/p2p/mock"
+	tmcons "github.com/tendermint/tendermint/proto/tendermint/consensus"
 	tmproto "github.com/tendermint/tendermint/proto/tendermint/types"
 	sm "github.com/tendermint/tendermint/state"
 	"github.com/tendermint/tendermint/store"
@@ -129,6 +132,46 @@ type sim struct {
 	halted  bool
 	decided string
 	tick    ticker
+	conR    *consensus.Reactor  // the real consensus reactor around this node's State (never gossips: no switch peers)
+	peers   map[p2p.ID]p2p.Peer // reactor-level peers by id
+}
+
+// fixedPeer is p2p/mock.Peer with a chosen id (the id the vote sets key catch-up rounds and majority
+// claims by)
+type fixedPeer struct {
+	*p2pmock.Peer
+	id p2p.ID
+}
+
+func (p fixedPeer) ID() p2p.ID { return p.id }
+
+func (s *sim) peer(id p2p.ID) p2p.Peer {
+	if pr, ok := s.peers[id]; ok {
+		return pr
+	}
+	mp := p2pmock.NewPeer(gonet.IP{127, 0, 0, 1})
+	mp.Stop() //nolint:errcheck // not running: Switch.StopPeerForError is then a no-op
+	fp := fixedPeer{mp, id}
+	mp.Set(types.PeerStateKey, consensus.NewPeerState(fp))
+	s.peers[id] = fp
+	return fp
+}
+
+// receiveMaj23 hands a VoteSetMaj23 message of peer `id` to the node the way the switch does:
+// Reactor.ReceiveEnvelope on the state channel (which calls HeightVoteSet.SetPeerMaj23 and answers
+// with VoteSetBits)
+func (s *sim) receiveMaj23(round int32, t tmproto.SignedMsgType, id p2p.ID, bid types.BlockID) (panicked string) {
+	defer func() {
+		if r := recover(); r != nil {
+			panicked = fmt.Sprint(r)
+		}
+	}()
+	s.conR.ReceiveEnvelope(p2p.Envelope{
+		Src:       s.peer(id),
+		ChannelID: consensus.StateChannel,
+		Message:   &tmcons.VoteSetMaj23{Height: 1, Round: round, Type: t, BlockID: bid.ToProto()},
+	})
+	return ""
 }
 
 type recPV struct {
@@ -235,6 +278,15 @@ func newSim(nt *net, w *world, self int) *sim {
 		panic(err)
 	}
 	cs.SetEventBus(s.bus)
+	s.peers = map[p2p.ID]p2p.Peer{}
+	s.conR = consensus.NewReactor(cs, true) // waitSync: the reactor never starts the State itself
+	s.conR.SetLogger(log.NewNopLogger())
+	sw := p2p.NewSwitch(cfg.DefaultP2PConfig(), nil)
+	sw.SetLogger(log.NewNopLogger())
+	s.conR.SetSwitch(sw)
+	if err := s.conR.Start(); err != nil {
+		panic(err)
+	}
 	s.node = consensus.NewVerifNodeTimed(cs, func(t consensus.VerifTimeoutD) {
 		if t.Height == 1 {
 			s.event(fmt.Sprintf("to(%d,%s)", t.Round, stepNames[t.Step]))
@@ -256,6 +308,9 @@ func newSim(nt *net, w *world, self int) *sim {
 }
 
 func (s *sim) close() {
+	if s != nil && s.conR != nil {
+		s.conR.Stop() //nolint:errcheck
+	}
 	if s != nil && s.bus != nil {
 		s.bus.Stop() //nolint:errcheck
 	}
@@ -554,8 +609,7 @@ func (nt *net) claim(i, j int) {
 	for _, c := range nt.claimsOf(j) {
 		c := c
 		s.run(func() string {
-			s.node.SetPeerMaj23(int32(c.r), c.t, peerID(1+nt.nodes[j].self), c.b) //nolint:errcheck
-			return ""
+			return s.receiveMaj23(int32(c.r), c.t, peerID(1+nt.nodes[j].self), c.b)
 		})
 	}
 }
@@ -789,8 +843,7 @@ func (nt *net) apply(op string) string {
 				// an id outside the table: some other unknown block
 				id = types.BlockID{Hash: bytes.Repeat([]byte{byte(b)}, 32), PartSetHeader: types.PartSetHeader{Total: 1, Hash: bytes.Repeat([]byte{byte(b + 1)}, 32)}}
 			}
-			s.node.SetPeerMaj23(int32(r), tt, peerID(peer), id) //nolint:errcheck
-			return ""
+			return s.receiveMaj23(int32(r), tt, peerID(peer), id)
 		})
 		nt.closed = false
 		return nt.nodeAnswer(i)
